@@ -5,6 +5,7 @@ import (
 	"fmt"
 	"maps"
 	"regexp"
+	"sort"
 	"strconv"
 
 	"github.com/BondMachineHQ/BondMachine/pkg/procbuilder"
@@ -879,6 +880,17 @@ func (sd *SimDrive) Init(c *Config, s *simbox.Simbox, vm *VM) error {
 					if ipos == -1 {
 						ipos = len(inj)
 						inj = append(inj, loc)
+
+						// As for the absolute set: writing an input register raises its valid signal
+						re := regexp.MustCompile("^i(?P<input>[0-9]+)$")
+						if re.MatchString(rule.Object) {
+							inIdxS := re.ReplaceAllString(rule.Object, "${input}")
+							inIdx, err := strconv.Atoi(inIdxS)
+							if err != nil {
+								return err
+							}
+							needValid[ipos] = inIdx
+						}
 					}
 
 					if actOnTick, ok := perset[rule.Tick]; ok {
@@ -922,6 +934,24 @@ func (sd *SimDrive) Init(c *Config, s *simbox.Simbox, vm *VM) error {
 	sd.AbsSet = absset
 	sd.PerSet = perset
 	return nil
+}
+
+// PeriodicSets returns the periodic set actions ("relative:<period>:set:...") due at the given
+// tick: those whose period divides the tick (a period of 0 never fires), in increasing period
+// order so that the outcome does not depend on the map iteration order.
+func (sd *SimDrive) PeriodicSets(tick uint64) []SimTickSet {
+	periods := make([]uint64, 0, len(sd.PerSet))
+	for period := range sd.PerSet {
+		if period != 0 && tick%period == 0 {
+			periods = append(periods, period)
+		}
+	}
+	sort.Slice(periods, func(a, b int) bool { return periods[a] < periods[b] })
+	result := make([]SimTickSet, len(periods))
+	for i, period := range periods {
+		result[i] = sd.PerSet[period]
+	}
+	return result
 }
 
 func (sd *SimReport) Init(s *simbox.Simbox, vm *VM) error {
